@@ -118,15 +118,19 @@ def generate(repo):
     out.append('Definition cs_blanks : list Z := %s.' % zl(cs.CodeStream.blanks))
     out.append('Definition cs_plain_end_line : list (list Z) := %s.' % zll(tokmod.PlainTextStream.end_line))
     # inline tuples of tokeniser._tokenise_word and lister._detokenise_keyword_into
-    ns = {'tk': tk2}
+    # `self` stands for the class, so that tuples hoisted into class attributes (self._xyz) still evaluate;
+    # instance attributes (self._keyword_to_token) do not and are skipped
+    listmod = _fresh_import(repo, 'pcbasic.basic.converter.lister')
+    ns = {'tk': tk2, 'self': T}
+    lns = {'tk': listmod.tk, 'self': listmod.Lister}
     ttree = ast.parse(open(os.path.join(repo, SOURCES[1])).read())
     wsets = _memberships(_func(ttree, 'Tokeniser', '_tokenise_word'), 'word', ns)
     # word in self._keyword_to_token  (not evaluable) is skipped by the evaluator -> handle explicitly
     out.append('Definition tok_no_longer_name : list (list Z) := %s.' % zll(_one_tuple(wsets, 'word not in (...)')))
     ltree = ast.parse(open(os.path.join(repo, SOURCES[2])).read())
     f = _func(ltree, 'Lister', '_detokenise_keyword_into')
-    tsets = _memberships(f, 'token', ns)
-    nsets = _memberships(f, 'next_char', ns)
+    tsets = _memberships(f, 'token', lns)
+    nsets = _memberships(f, 'next_char', lns)
     if len(tsets) != 2 or len(nsets) != 1 or not all(_all_bytes_tuple(v) for v in tsets + nsets):
         raise Refuse('lister._detokenise_keyword_into: unexpected membership tests (%d token, %d next_char)'
                      % (len(tsets), len(nsets)))
